@@ -224,6 +224,21 @@ def run(ctx):
         cases.append({"kind": "f1", "fun": name, "x": [m * rng.choice([1, -1]), e], "prec": pr, "rnd": rng.choice(RNDS) if raw else "n",
                       "via": "raw" if raw else "api", "shape": "exp_tail_switch", "site": site})
 
+    # exp of INTEGER arguments above the precision literal of mpf_exp's e**n branch (`prec > 600 and exp >= 0`): the guard bits
+    # there depend on the magnitude of the argument, so integers with a short odd part and many trailing zero bits (2^k, 3*2^k)
+    # get their own small family, at precisions on both sides of the literal
+    lit = min([t for t in th["prec"] if 500 <= t <= 800] or [600])
+    for i in range(40 if ctx.quick else 600):
+        name = rng.choice(["exp", "exp", "exp", "expm1", "cosh", "sinh"])
+        if name not in FUN1:
+            name = "exp"
+        drv, raw, site, dom = FUN1[name]
+        odd = rng.choice([1, 1, 1, 3, 5, 7, 2 * rng.randint(0, 31) + 1])
+        k = rng.randint(0, 45 - odd.bit_length())
+        pr = rng.choice([lit - 1, lit, lit + 1, lit + 2, lit + rng.randint(3, 400)])
+        cases.append({"kind": "f1", "fun": name, "x": [odd * rng.choice([1, 1, -1]), k], "prec": pr, "rnd": rng.choice(RNDS) if raw else "n",
+                      "via": "raw" if raw else "api", "shape": "integer_argument_branch", "site": site})
+
     fails, reqs, owners = [], [], []
     noresult = {"timeout": 0, "exc": 0}
     per_fun = {}
